@@ -381,6 +381,7 @@ const (
 type proof struct {
 	claim          int
 	rightSecret    bool // the registered secret is presented (Basic or POST), well-formed
+	rightViaBasic  bool // ... and it travels in a well-formed Basic header (otherwise only in the form / query)
 	altEncoding    bool // ... but in a non-canonical encoding (raw, unencoded Basic): not counted as "right credential" for the positive cells
 	wrongSecret    bool // some secret that is not the registered one (or none is registered) is presented
 	malformed      bool // malformed percent-encoding in the Basic credentials
@@ -407,7 +408,7 @@ type verdict struct {
 
 var reasonPriority = []string{
 	"grant-unknown", "grant-missing", "no-client", "unknown-client", "grant-disabled", "grant-unregistered",
-	"wrong-kind-secret", "wrong-kind-assertion", "wrong-secret", "malformed-credential", "bad-assertion",
+	"wrong-kind-secret", "wrong-kind-assertion", "post-disabled", "post-disabled:basic-registered-client", "wrong-secret", "malformed-credential", "bad-assertion",
 	"assertion-missing", "no-credential", "public-client-not-allowed", "mixed-identity",
 }
 
@@ -560,8 +561,16 @@ func oracleOneGrant(s *spec, p proof, bk int) verdict {
 			if p.wrongSecret {
 				grey("right-and-wrong-secret-together")
 			}
-			if p.viaPost && !s.Post {
-				grey("secret-via-post-while-post-disabled")
+			// "correct secret via Basic or - if enabled - POST": a secret that travels only in the form while the provider
+			// has client_secret_post disabled is not an authentication
+			if !p.rightViaBasic && !s.Post {
+				if s.Auth == authPost {
+					add("post-disabled")
+				} else if strictPostDisabledForBasicRegistered {
+					add("post-disabled:basic-registered-client")
+				} else {
+					grey("post-disabled:basic-registered-client")
+				}
 			}
 		}
 	case authJWT:
@@ -579,7 +588,7 @@ func oracleOneGrant(s *spec, p proof, bk int) verdict {
 				add("no-credential")
 			}
 		} else if !s.PKJWT {
-			grey("private_key_jwt-disabled-at-provider")
+			grey(opNames[s.Op] + ":valid-assertion-while-private_key_jwt-disabled")
 		}
 	case authNone:
 		if s.Op == opCC || s.Op == opIntrospect {
@@ -619,3 +628,8 @@ func oracleOneGrant(s *spec, p proof, bk int) verdict {
 // must be refused ("a credential of the wrong kind for that client ... is always refused"). Setting this to false
 // turns the whole class grey.
 const strictWrongKind = true
+
+// strictPostDisabledForBasicRegistered: the provider flag AuthMethodPost=false also closes the form / query channel to
+// clients registered for client_secret_basic (the library consults the flag only for post-registered clients).
+// false turns that sub-class grey; the post-registered class ("post-disabled") stays must-refuse.
+const strictPostDisabledForBasicRegistered = false
